@@ -6,6 +6,6 @@ D=$(mktemp -d /tmp/vxmut.XXXXXX)
 mkdir -p $D/repo && cp -r /repo/src $D/repo/src && cp /repo/Cargo.toml /repo/Cargo.lock $D/repo/ 2>/dev/null || true
 (cd $D/repo && patch -p1 -s < "$P")
 rc=0
-for pid in "$@"; do VX_REPO=$D/repo python3 /verif/vx/vx.py check $pid || rc=$?; done
+for pid in "$@"; do VX_REPO=$D/repo VX_EVIDENCE_DIR=$D/ev VX_REPLAY_DIR=$D/rp python3 /verif/vx/vx.py check $pid || rc=$?; done
 rm -rf $D
 exit $rc
